@@ -41,7 +41,7 @@ CAUGHT = {
  "C09d": "C09 `TV_ReaderInput` kind `agree`: typed requests (deserialize_str, field names, numbers, chars; tagged scalars) through all seven entry points (added for it)",
  "C10d": "C10 `TV_ReaderInput` kind `typed-fault`: typed iterators / readers under every truncation point, fault and cap; values yielded before the error must be those of the complete text (added for it)",
  "C15d": "C15 `TV_AnchorStore` histories (nested call between anchored nodes)", "C19d": "C19 `TV_Robotics` (`wrong-value`, nested unit calls)",
- "C18d": "NOT caught: needs a map-typed validated field, DuplicateKeyPolicy::LastWins and a repeated key - outside the validated family the property quantifies over (see 0.6)",
+ "C18d": "C18 `TV_PathMap` on the extended family (a map-typed validated field read under DuplicateKeyPolicy::LastWins with repeated keys, added for it): `field-mapped-to-the-wrong-site`",
  "C16a": "C16 `TV_Locations` (`merged-entry-not-attributed-to-its-merge`)", "C17a": "C17 `TV_Snippet` (`ring` family)",
  "C18a": "C18 `TV_PathMap` through the Display channels", "C19a": "C19 `TV_Robotics` (`wrong-value`)", "C20a": "C20 `TV_Emitter`",
 }
